@@ -310,7 +310,7 @@ int main(int argc, char** argv) {
     uint64_t idx = 0;
     //awgn
     {
-        const int cnt = thorough ? 400 : 128;
+        const int cnt = thorough ? 3200 : 256;
         for (int t = 0; t < cnt; ++t) {
             if (!vh::mine(idx++)) {
                 continue;
@@ -325,7 +325,7 @@ int main(int argc, char** argv) {
     vh::sample("awgn: n = 1e4..1e5 (quick) / 1e6 (thorough), snr -10..80 dB, signal power over 120 dB, tones / broadband / two-level, real and complex: power, mean, lag-1..8 autocorrelation, kurtosis within 6 standard errors");
     //thd / sinad / snr
     {
-        const int cnt = thorough ? 800 : 200;
+        const int cnt = thorough ? 6000 : 400;
         for (int t = 0; t < cnt; ++t) {
             if (!vh::mine(idx++)) {
                 continue;
@@ -335,10 +335,11 @@ int main(int argc, char** argv) {
             check_thd(n, r);
         }
     }
-    //reproducibility: seeds 0..1000
+    //reproducibility: seeds 0..3000 / 0..20000
     {
         const int step = thorough ? 1 : 7;
-        for (int seed = 0; seed <= 1000; seed += step) {
+        const int maxseed = thorough ? 20000 : 3000;
+        for (int seed = 0; seed <= maxseed; seed += step) {
             if (!vh::mine(idx++)) {
                 continue;
             }
